@@ -2,6 +2,7 @@ package main
 
 import (
 	"fmt"
+	"os"
 	"math/rand"
 	"time"
 
@@ -237,7 +238,7 @@ func init() {
 			if cs.Kind == "orders" {
 				return runC03(cs)
 			}
-			return runHistory(cs, func(nw *Network) []Monitor { return []Monitor{NewMonAgreement(), NewMonReach()} }, nil)
+			return runHistory(cs, func(nw *Network) []Monitor { fm := NewMonFame(); fm.Strict = os.Getenv("VERIF_FAME_STRICT") == "1"; return []Monitor{NewMonAgreement(), NewMonReach(), fm, NewMonLateSets()} }, nil)
 		},
 		PerCaseTimeout: 15 * time.Minute,
 	})
